@@ -376,6 +376,53 @@ fn run_object_kernel(spec: &str, args: &[P]) -> String {
                 Err(_) => "ERR".to_string(),
             }
         }
+        "construct-twice" => {
+            // two constructor calls in a row through one builder, each with its own (equal-valued) variables
+            let mut bld = crate::variables::ObjectBuilder::new();
+            let x = bld.name("C".to_string()).object_variables(mapping(&args[0], &args[1])).build();
+            let y = bld.name("C".to_string()).object_variables(mapping(&args[0], &args[1])).build();
+            // write through the second object only
+            let head = new_ctx_run(&|ctx: &mut Ctx| {
+                ctx.push(P::Object(y.clone()));
+                if imp::lookup(ctx, &["f".to_string()]).is_err() {
+                    return "ERR".to_string();
+                }
+                ctx.push(args[2].clone());
+                match imp::ptr_mut(ctx, &[]) {
+                    Ok(()) => "OK".to_string(),
+                    Err(_) => "ERR".to_string(),
+                }
+            });
+            let same = matches!(P::Object(x.clone()).runtime_addr_check(&P::Object(y.clone())), Ok(P::Bool(true)));
+            format!("{head} same={} | {} | {}", same as u8, fields(&x), fields(&y))
+        }
+        "relist" => {
+            // a field holding list L1 = [a] is assigned list L2 = [b]; then 99 is pushed through L2: the field must show it
+            let l1 = crate::GcVector::new(vec![args[0].clone()]);
+            let l2 = crate::GcVector::new(vec![args[1].clone()]);
+            let mut m = std::collections::HashMap::new();
+            m.insert("f".to_string(), PrimitiveFlagsPair::new(P::Vector(l1.clone()), VariableFlags::none()));
+            m.insert("g".to_string(), PrimitiveFlagsPair::new(P::Int(0), VariableFlags::none()));
+            let a = Object::new("C".to_string(), m.into());
+            let head = new_ctx_run(&|ctx: &mut Ctx| {
+                ctx.push(P::Object(a.clone()));
+                if imp::lookup(ctx, &["f".to_string()]).is_err() {
+                    return "ERR".to_string();
+                }
+                ctx.push(P::Vector(l2.clone()));
+                match imp::ptr_mut(ctx, &[]) {
+                    Ok(()) => "OK".to_string(),
+                    Err(_) => "ERR".to_string(),
+                }
+            });
+            l2.0.borrow_mut().push(P::Int(99));
+            let held = a.get_property("f", false).unwrap();
+            let shown = match &*held.primitive() {
+                P::Vector(v) => v.0.borrow().iter().map(item).collect::<Vec<_>>().join(","),
+                other => format!("{other:?}"),
+            };
+            format!("{head} | f=[{shown}]")
+        }
         "write:f" | "write:g" | "read:zz" => {
             // through an ALIAS: look the field up, write the last operand through the pointer; observe through the original
             let a = Object::new("C".to_string(), mapping(&args[0], &args[1]));
